@@ -516,3 +516,44 @@ impl DecodeBeatmap for TimingPoints {
         Ok(())
     }
 }
+
+/// Verification hooks: read access to the private parsing state; compiled
+/// only with `--cfg maxohn_rosu_map_verif`.
+#[cfg(maxohn_rosu_map_verif)]
+#[doc(hidden)]
+pub mod verif_hooks {
+    use super::{
+        ControlPoints, DifficultyPoint, EffectPoint, GeneralState, SamplePoint, TimingPoint,
+        TimingPointsState,
+    };
+
+    pub struct StateParts<'a> {
+        pub general: &'a GeneralState,
+        pub pending_control_points_time: f64,
+        pub pending_timing_point: &'a Option<TimingPoint>,
+        pub pending_difficulty_point: &'a Option<DifficultyPoint>,
+        pub pending_effect_point: &'a Option<EffectPoint>,
+        pub pending_sample_point: &'a Option<SamplePoint>,
+        pub control_points: &'a ControlPoints,
+    }
+
+    pub fn state_parts(state: &TimingPointsState) -> StateParts<'_> {
+        StateParts {
+            general: &state.general,
+            pending_control_points_time: state.pending_control_points_time,
+            pending_timing_point: &state.pending_timing_point,
+            pending_difficulty_point: &state.pending_difficulty_point,
+            pending_effect_point: &state.pending_effect_point,
+            pending_sample_point: &state.pending_sample_point,
+            control_points: &state.control_points,
+        }
+    }
+
+    pub fn state_general_mut(state: &mut TimingPointsState) -> &mut GeneralState {
+        &mut state.general
+    }
+
+    pub fn flush_pending_points(state: &mut TimingPointsState) {
+        state.flush_pending_points();
+    }
+}
